@@ -1,75 +1,8 @@
-import ShootVerif.Proofs.CtorSpec
+import ShootVerif.Proofs.CtorNames
 /-! The name-keyed `nameMap` and the parameter list against the specification. -/
 namespace ShootVerif.Ctor
 
-/-- the shadow function the generator ends up with -/
-def genShadow (t : Tree) : Shadow := shadowOf (walkTop noShadow t)
-
 def nonSkipped (t : Tree) : List Leaf := (leavesTop t).filter (fun l => !l.info.skip)
-
-/-- `nameMap` over the generator's list, restated over the leaves -/
-theorem nameMap_leaves (t : Tree) (hn : Bool) (n : String) :
-    nameMap hn (flatten t) n =
-      if (nonSkipped t).any (fun l => decide (l.info.name = n) && !genShadow t l.depth l.info.name && !(hn && !l.marked))
-      then some (paramName n) else none := by
-  unfold nameMap
-  rw [flatten_closed]
-  have h1 : ∀ (L : List Field) (Q : Field → Bool),
-      L.any (fun f => Q f && !f.isEmbeded) = (L.filter (fun f => !f.isEmbeded)).any Q := by
-    intro L Q
-    induction L with
-    | nil => rfl
-    | cons x xs ih =>
-      simp only [List.any_cons, List.filter_cons, ih]
-      cases hx : x.isEmbeded <;> simp
-  have h2 : (walkTop (genShadow t) t).any
-        (fun f => decide (f.name = n ∧ (!f.isShadowed) = true ∧ (!f.isEmbeded) = true ∧ (!decide (hn = true ∧ (!f.isNew) = true)) = true)) =
-      (walkTop (genShadow t) t).any
-        (fun f => (decide (f.name = n) && !f.isShadowed && !(hn && !f.isNew)) && !f.isEmbeded) := by
-    apply List.any_congr rfl
-    intro f
-    cases f.isShadowed <;> cases f.isEmbeded <;> cases hn <;> cases f.isNew <;> by_cases hname : f.name = n <;> simp [hname]
-  unfold genShadow at h2 ⊢
-  rw [h2, h1]
-  unfold walkTop
-  rw [walk_fields _ t true [] false 0]
-  simp only [List.any_map, nonSkipped, leavesTop]
-  rfl
-
-theorem mem_visible {t : Tree} (hts : topSkipShadows t = false) {l : Leaf} (hl : l ∈ leavesTop t)
-    (hsh : genShadow t l.depth l.info.name = false) : l ∈ visibleLeaves t := by
-  unfold visibleLeaves
-  simp only [List.mem_filter, hl, true_and]
-  have := shadow_agrees t hts l hl
-  unfold genShadow at hsh
-  rw [hsh] at this
-  simp [← this]
-
-/-- L3: for a visible, non-skipped leaf the name-keyed map answers for that very leaf -/
-theorem nameMap_of_leaf (t : Tree) (hn : Bool) (hts : topSkipShadows t = false)
-    (hnd : ((visibleLeaves t).map (fun l => paramName l.info.name)).Nodup)
-    (l : Leaf) (hl : l ∈ leavesTop t) (hsk : l.info.skip = false)
-    (hsh : genShadow t l.depth l.info.name = false) :
-    nameMap hn (flatten t) l.info.name =
-      if (!hn || l.marked) then some (paramName l.info.name) else none := by
-  rw [nameMap_leaves]
-  have hvis := mem_visible hts hl hsh
-  have : (nonSkipped t).any (fun l' => decide (l'.info.name = l.info.name) &&
-      !genShadow t l'.depth l'.info.name && !(hn && !l'.marked)) = (!hn || l.marked) := by
-    cases hb : (!hn || l.marked)
-    · rw [List.any_eq_false]
-      intro l' hl' hc
-      simp only [Bool.and_eq_true, decide_eq_true_eq, Bool.not_eq_true'] at hc
-      have hl'' : l' ∈ leavesTop t := (List.mem_filter.mp hl').1
-      have hvis' := mem_visible hts hl'' hc.1.2
-      have e : l' = l := eq_of_nodup_map hnd l' hvis' l hvis (by simp [hc.1.1])
-      subst e
-      cases hn <;> cases hm : l'.marked <;> simp_all
-    · rw [List.any_eq_true]
-      refine ⟨l, ?_, ?_⟩
-      · simp [nonSkipped, hl, hsk]
-      · cases hn <;> cases hm : l.marked <;> simp_all
-  rw [this]
 
 theorem filterMap_filter_none {α β : Type} (g : α → Option β) (p : α → Bool)
     (h : ∀ a, p a = false → g a = none) : ∀ L : List α, L.filterMap g = (L.filter p).filterMap g := by
@@ -91,6 +24,142 @@ theorem filterMap_congr_mem {α β : Type} {g h : α → Option β} :
     intro hh
     simp only [List.filterMap_cons, hh x (by simp), ih (fun a ha => hh a (by simp [ha]))]
 
+/-- a `filterMap` over the generator's list that ignores shadowed entries and markers is the same
+    `filterMap` over the visible, non-skipped leaves of the struct -/
+theorem flatten_filterMap_leaves {β : Type} (t : Tree) (g : Field → Option β) :
+    (flatten t).filterMap (fun f => if f.isShadowed || f.isEmbeded then none else g f) =
+      (leavesTop t).filterMap (fun l =>
+        if l.info.skip || genShadow t l.depth l.info.name then none
+        else g (mkField (genShadow t) l.depth l.marked l.info l.top)) := by
+  rw [flatten_closed]
+  rw [filterMap_filter_none _ (fun f => !f.isEmbeded)
+    (by intro f hf; simp only [Bool.not_eq_eq_eq_not, Bool.not_false] at hf; simp [hf])]
+  unfold walkTop
+  rw [walk_fields _ t true [] false 0, List.filterMap_map, List.filterMap_filter]
+  apply filterMap_congr_mem
+  intro l _
+  by_cases hs : l.info.skip
+  · simp [hs]
+  · simp only [hs, Bool.not_false, ↓reduceIte, Function.comp, Bool.false_or]
+    simp only [mkField, Bool.or_false]
+
+/-- `nameMapSimple` over the generator's list, restated over the leaves -/
+theorem nameMapSimple_leaves (t : Tree) (hn : Bool) (n : String) :
+    nameMapSimple hn (flatten t) n =
+      if (nonSkipped t).any (fun l => decide (l.info.name = n) && !genShadow t l.depth l.info.name && !(hn && !l.marked))
+      then some (paramName n) else none := by
+  unfold nameMapSimple condNew
+  rw [flatten_closed]
+  have h1 : ∀ (L : List Field) (Q : Field → Bool),
+      L.any (fun f => Q f && !f.isEmbeded) = (L.filter (fun f => !f.isEmbeded)).any Q := by
+    intro L Q
+    induction L with
+    | nil => rfl
+    | cons x xs ih =>
+      simp only [List.any_cons, List.filter_cons, ih]
+      cases hx : x.isEmbeded <;> simp
+  have h2 : (walkTop (genShadow t) t).any
+        (fun f => decide (f.name = n) && (!f.isShadowed && !f.isEmbeded && !(hn && !f.isNew))) =
+      (walkTop (genShadow t) t).any
+        (fun f => (decide (f.name = n) && !f.isShadowed && !(hn && !f.isNew)) && !f.isEmbeded) := by
+    apply List.any_congr rfl
+    intro f
+    cases f.isShadowed <;> cases f.isEmbeded <;> cases hn <;> cases f.isNew <;> by_cases hname : f.name = n <;> simp [hname]
+  rw [h2, h1]
+  unfold walkTop
+  rw [walk_fields _ t true [] false 0]
+  simp only [List.any_map, nonSkipped, leavesTop]
+  rfl
+
+theorem sublist_filterMap_of_imp {α β : Type} (g h : α → Option β) : ∀ (L : List α),
+    (∀ a ∈ L, ∀ b, g a = some b → h a = some b) → List.Sublist (L.filterMap g) (L.filterMap h) := by
+  intro L
+  induction L with
+  | nil => intro _; simp
+  | cons x xs ih =>
+    intro himp
+    have hrec := ih (fun a ha => himp a (by simp [ha]))
+    simp only [List.filterMap_cons]
+    cases hg : g x with
+    | none =>
+      cases hh : h x with
+      | none => exact hrec
+      | some b => exact List.Sublist.cons _ hrec
+    | some b =>
+      rw [himp x (by simp) b hg]
+      exact List.Sublist.cons₂ _ hrec
+
+theorem mem_visible {t : Tree} (hts : nestedSkipShadows t = false) {l : Leaf} (hl : l ∈ leavesTop t)
+    (hsh : genShadow t l.depth l.info.name = false) : l ∈ visibleLeaves t := by
+  unfold visibleLeaves
+  simp only [List.mem_filter, hl, true_and]
+  have := shadow_agrees t hts l hl
+  rw [hsh] at this
+  simp [← this]
+
+/-- the parameter entries of the generator's list are visible leaves: their parameter names are distinct
+    whenever those of the visible leaves are -/
+theorem condNames_nodup (t : Tree) (hn : Bool) (hts : nestedSkipShadows t = false)
+    (hnd : ((visibleLeaves t).map (fun l => paramName l.info.name)).Nodup) :
+    (((flatten t).filter (condNew hn)).map (fun f => paramName f.name)).Nodup := by
+  have e1 : ((flatten t).filter (condNew hn)).map (fun f => paramName f.name) =
+      (flatten t).filterMap (fun f => if f.isShadowed || f.isEmbeded then none
+        else (if !(hn && !f.isNew) then some (paramName f.name) else none)) := by
+    rw [← List.filterMap_eq_map, List.filterMap_filter]
+    apply filterMap_congr_mem
+    intro f _
+    unfold condNew
+    cases f.isShadowed <;> cases f.isEmbeded <;> cases hn <;> cases f.isNew <;> rfl
+  rw [e1, flatten_filterMap_leaves]
+  have e2 : (visibleLeaves t).map (fun l => paramName l.info.name) =
+      (leavesTop t).filterMap (fun l => if goShadowed t l.depth l.info.name then none else some (paramName l.info.name)) := by
+    unfold visibleLeaves
+    rw [← List.filterMap_eq_map, List.filterMap_filter]
+    apply filterMap_congr_mem
+    intro l _
+    cases goShadowed t l.depth l.info.name <;> rfl
+  rw [e2] at hnd
+  refine List.Sublist.nodup (sublist_filterMap_of_imp _ _ _ ?_) hnd
+  intro l hl b hb
+  have hag := shadow_agrees t hts l hl
+  rw [hag] at hb
+  cases hg : goShadowed t l.depth l.info.name
+  · simp only [hg, Bool.or_false] at hb
+    simp only [Bool.false_eq_true, ↓reduceIte]
+    by_cases hs : l.info.skip
+    · simp [hs] at hb
+    · simp only [hs, Bool.false_eq_true, ↓reduceIte, mkField] at hb
+      cases hc : (!(hn && !l.marked))
+      · simp [hc] at hb
+      · simpa [hc] using hb
+  · simp [hg] at hb
+
+/-- L3: for a visible, non-skipped leaf the name-keyed map answers for that very leaf -/
+theorem nameMap_of_leaf (t : Tree) (hn : Bool) (hts : nestedSkipShadows t = false)
+    (hnd : ((visibleLeaves t).map (fun l => paramName l.info.name)).Nodup)
+    (l : Leaf) (hl : l ∈ leavesTop t) (hsk : l.info.skip = false)
+    (hsh : genShadow t l.depth l.info.name = false) :
+    nameMap hn (flatten t) l.info.name =
+      if (!hn || l.marked) then some (paramName l.info.name) else none := by
+  rw [nameMap_simple hn _ _ (condNames_nodup t hn hts hnd), nameMapSimple_leaves]
+  have hvis := mem_visible hts hl hsh
+  have : (nonSkipped t).any (fun l' => decide (l'.info.name = l.info.name) &&
+      !genShadow t l'.depth l'.info.name && !(hn && !l'.marked)) = (!hn || l.marked) := by
+    cases hb : (!hn || l.marked)
+    · rw [List.any_eq_false]
+      intro l' hl' hc
+      simp only [Bool.and_eq_true, decide_eq_true_eq, Bool.not_eq_true'] at hc
+      have hl'' : l' ∈ leavesTop t := (List.mem_filter.mp hl').1
+      have hvis' := mem_visible hts hl'' hc.1.2
+      have e : l' = l := eq_of_nodup_map hnd l' hvis' l hvis (by simp [hc.1.1])
+      subst e
+      cases hn <;> cases hm : l'.marked <;> simp_all
+    · rw [List.any_eq_true]
+      refine ⟨l, ?_, ?_⟩
+      · simp [nonSkipped, hl, hsk]
+      · cases hn <;> cases hm : l.marked <;> simp_all
+  rw [this]
+
 /-- the parameter-name function of the model, on a leaf -/
 def leafParam (t : Tree) (hn : Bool) (l : Leaf) : Option String :=
   if l.info.skip then none
@@ -108,16 +177,16 @@ theorem paramNames_leaves (t : Tree) (hn : Bool) :
   rw [walk_fields _ t true [] false 0, List.filterMap_map, List.filterMap_filter]
   apply filterMap_congr_mem
   intro l _
-  unfold leafParam genShadow walkTop
+  unfold leafParam
   by_cases hs : l.info.skip
   · simp [hs]
   · simp only [hs, Bool.not_false, ↓reduceIte, Function.comp, mkField, Bool.false_or, Bool.false_eq_true]
-    cases hsh : shadowOf (walk noShadow true false 0 t) l.depth l.info.name
+    cases hsh : genShadow t l.depth l.info.name
     · simp only [Bool.false_eq_true, ↓reduceIte]
       cases nameMap hn (flatten t) l.info.name <;> simp
     · simp
 
-theorem eligible_iff_leafParam (t : Tree) (hts : topSkipShadows t = false)
+theorem eligible_iff_leafParam (t : Tree) (hts : nestedSkipShadows t = false)
     (hnd : ((visibleLeaves t).map (fun l => paramName l.info.name)).Nodup)
     (l : Leaf) (hl : l ∈ leavesTop t) :
     leafParam t (hasNewTop t) l = if eligible t l then some (paramName l.info.name) else none := by
@@ -128,15 +197,15 @@ theorem eligible_iff_leafParam (t : Tree) (hts : topSkipShadows t = false)
   · simp only [hs, Bool.false_eq_true, ↓reduceIte, Bool.not_false, Bool.and_true]
     cases hsh : genShadow t l.depth l.info.name
     · have hg : goShadowed t l.depth l.info.name = false := by
-        unfold genShadow at hsh; rw [← hag, hsh]
+        rw [← hag, hsh]
       rw [nameMap_of_leaf t _ hts hnd l hl (by simpa using hs) hsh]
       simp [hg]
     · have hg : goShadowed t l.depth l.info.name = true := by
-        unfold genShadow at hsh; rw [← hag, hsh]
+        rw [← hag, hsh]
       simp [hg]
 
 /-- L4: the parameters are the eligible leaves in depth-first declaration order -/
-theorem paramNames_spec (t : Tree) (hts : topSkipShadows t = false)
+theorem paramNames_spec (t : Tree) (hts : nestedSkipShadows t = false)
     (hnd : ((visibleLeaves t).map (fun l => paramName l.info.name)).Nodup) :
     (gen t).params.map Prod.fst = (specParams t).map (fun l => paramName l.info.name) := by
   simp only [gen, Bool.false_or]
@@ -147,25 +216,5 @@ theorem paramNames_spec (t : Tree) (hts : topSkipShadows t = false)
   intro l hl
   rw [eligible_iff_leafParam t hts hnd l hl]
   cases eligible t l <;> simp
-
-/-- a `filterMap` over the generator's list that ignores shadowed entries and markers is the same
-    `filterMap` over the visible, non-skipped leaves of the struct -/
-theorem flatten_filterMap_leaves {β : Type} (t : Tree) (g : Field → Option β) :
-    (flatten t).filterMap (fun f => if f.isShadowed || f.isEmbeded then none else g f) =
-      (leavesTop t).filterMap (fun l =>
-        if l.info.skip || genShadow t l.depth l.info.name then none
-        else g (mkField (genShadow t) l.depth l.marked l.info l.top)) := by
-  rw [flatten_closed]
-  rw [filterMap_filter_none _ (fun f => !f.isEmbeded)
-    (by intro f hf; simp only [Bool.not_eq_eq_eq_not, Bool.not_false] at hf; simp [hf])]
-  unfold walkTop
-  rw [walk_fields _ t true [] false 0, List.filterMap_map, List.filterMap_filter]
-  apply filterMap_congr_mem
-  intro l _
-  unfold genShadow walkTop
-  by_cases hs : l.info.skip
-  · simp [hs]
-  · simp only [hs, Bool.not_false, ↓reduceIte, Function.comp, Bool.false_or]
-    simp only [mkField, Bool.or_false]
 
 end ShootVerif.Ctor
